@@ -150,3 +150,17 @@ package keeper
 //@ loop #1
 //@   invariant true
 //@ define nonceKeyV(v) = cat(v, "/")
+
+// C12 (a round that closes without a price carries the previous price forward, under the next round number): exactly
+// one round is appended for the token - the latest stored round with its number increased by one, or, when there is
+// none yet, an empty price under the next round number.
+//@ func (Keeper).GrowRoundID
+//@   flag noframe
+//@   flag pure=GetPriceTRLatest,GetNextRoundID
+//@   flag havoc=AppendPriceTR
+//@   before[C12.grid.carry] AppendPriceTR requires arg_tokenID == tokenID &&
+//@        (res_GetPriceTRLatest_1 ==> arg_priceTR.Price == res_GetPriceTRLatest_0.Price && arg_priceTR.Decimal == res_GetPriceTRLatest_0.Decimal &&
+//@             arg_priceTR.RoundID == wrapu(res_GetPriceTRLatest_0.RoundID + 1, 18446744073709551616)) &&
+//@        (!res_GetPriceTRLatest_1 ==> defined(res_GetNextRoundID_0) && arg_priceTR.RoundID == res_GetNextRoundID_0 && arg_priceTR.Price == "")
+//@   ensures[C12.grid.once] defined(res_AppendPriceTR_0)
+//@   ensures[C12.grid.reported] res_GetPriceTRLatest_1 ==> price == res_GetPriceTRLatest_0.Price
